@@ -186,7 +186,7 @@ class Acct:
                 if len(items) < 2:
                     rec["undecided"].append("serialiser emits fewer than two sources")
                     continue
-                ctx = Ctx(F, S, fields, exp, lin, parser=parser)
+                ctx = Ctx(F, S, fields, exp, lin, parser=parser, cons=q.cons)
                 rec.setdefault("leaf_used", set())
                 # item 1 must be the Remaining Length: a VBI field of S
                 rlv = ctx.vbi_of_item(items[1])
@@ -222,7 +222,7 @@ class Acct:
                 if entry_items and not sums:
                     rec["diff"].append({"why": "entries are serialised but build() does not add their sizes", "build": ctx.show(L), "serialised": ctx.show(tot)})
                     continue
-                facts = [ctx.canon(f) for f in lin.facts_of_cons(q.cons)]
+                facts = [ctx.canon(f) for f in lin.facts_of_cons(q.cons)] + ctx.emptiness_facts()
                 if parser and self.consumed_facts is not None:
                     facts += [ctx.canon(f) for f in self.consumed_facts(F, p, lin, exp)]
                 d1 = linear.lin_add(L2, tot, -1)
@@ -255,9 +255,11 @@ class Acct:
 
 
 class Ctx:
-    def __init__(self, F, S, fields, exp, lin, parser=False):
+    def __init__(self, F, S, fields, exp, lin, parser=False, cons=None):
         self.F, self.S, self.fields, self.exp, self.lin = F, S, fields, exp, lin
         self.parser = parser
+        self.cons = cons or {}
+        self._cons_exp = None
         self.leaf_used = set()
 
     # ---- values
@@ -438,11 +440,59 @@ class Ctx:
                     return linear.atom(IDLEN)
         if isinstance(a, tuple) and a and a[0] == "len":
             return self.size_atom(a[1])
+        if isinstance(a, tuple) and a and a[0] in ("enum_eq", "cmp", "not"):
+            b = self.bool_value(a)         # usize::from(flag): 0 / 1 once the path has decided the flag
+            if b is not None:
+                return linear.const(1 if b else 0)
         if self.parser:
             r = self.consumed_atom(a)
             if r is not None:
                 return r
         return linear.atom(a)
+
+    def bool_value(self, a):
+        if self._cons_exp is None:
+            self._cons_exp = {repr(self.exp(k)): c for k, c in self.cons.items()}
+        if a[0] == "not":
+            inner = a[1][1] if a[1][0] == "sym" else None
+            v = self.bool_value(inner) if inner else None
+            return None if v is None else (not v)
+        if a[0] == "enum_eq":
+            c = self._cons_exp.get(repr(self.exp(("discr", a[1], a[2]))))
+            if c is None:
+                return None
+            want = None
+            for d, n in explore.BUILTIN_DISCR.get(a[2], {}).items():
+                if n == a[3]:
+                    want = d
+            if want is None and a[2] in self.F.adts:
+                for v in self.F.adts[a[2]]["variants"]:
+                    if v["name"] == a[3]:
+                        want = v.get("discr", v["idx"])
+            if want is None:
+                return None
+            if c[0] == "eq":
+                return c[1] == want
+            return False if want in c[1] else None
+        c = self._cons_exp.get(repr(self.exp(a)))
+        if c is not None and c[0] == "eq":
+            return c[1] == 1
+        return None
+
+    def emptiness_facts(self):
+        """x.is_empty() decided on the path: SIZE(x) == 0 / SIZE(x) >= 1."""
+        out = []
+        for k, c in self.cons.items():
+            k = self.exp(k)
+            if k[0] == "call" and k[1].split("::")[-1] == "is_empty" and c[0] == "eq":
+                args = [x for x in k[2] if not (isinstance(x, tuple) and x and x[0] == "targs")]
+                if len(args) == 1:
+                    sz = self.size_atom(args[0])
+                    if c[1] == 1:
+                        out.append(sz)                                        # size <= 0
+                    else:
+                        out.append(linear.lin_add(linear.const(1), sz, -1))    # 1 - size <= 0
+        return out
 
     def canon(self, l):
         out = ({}, l[1])
